@@ -320,6 +320,11 @@ def main(argv):
             inp = b"".join(pyb64.b64encode(d) + b"\n" for d in docs)
             st, so, se = run_limited([tool, idc], stdin=inp, timeout=60)
             check_stream("at-once", docs, st, so, se, "%d documents (see mkdocs in checks/C08.py) | b64filter child_id.py" % n)
+        # one very large document (bigger than every stream buffer and pipe) between small ones
+        big = b"".join(b"row %d of the big document %s\n" % (i, b"z" * (i % 97)) for i in range(6000))
+        docs = mkdocs(40, 1) + [big, b"", big[:-1]] + mkdocs(40, 2)
+        st, so, se = run_limited([tool, idc], stdin=b"".join(pyb64.b64encode(d) + b"\n" for d in docs), timeout=120)
+        check_stream("big-document", docs, st, so, se, "80 small documents around two ~400 kB documents of 6000 lines | b64filter child_id.py")
         for n, cuts in ((2500, (1023, 2046)), (1100, (1022,)), (2100, (1024, 2047))):
             docs = mkdocs(n, 7)
             enc = [pyb64.b64encode(d) + b"\n" for d in docs]
@@ -333,6 +338,22 @@ def main(argv):
                 check_stream("stalled-stdin:%s" % os.path.basename(child), docs, st, so, se,
                              "%d documents, stdin pauses 1.2 s after document(s) %s | b64filter %s" % (n, list(cuts), os.path.basename(child)))
         c.cov["traces_validated_against_impl"] += 12
+        # --- thorough: every document shape through the AddressSanitizer build of the tool (UBSan is left out:
+        #     it stops at the signed left shift in preprocess/base64.cc, C09's modelled 32-bit wrap)
+        if not quick:
+            ok_asan, alog = build_repo(["b64filter"], flavour="asan_only")
+            if not ok_asan:
+                c.broken.append("asan build of b64filter failed: " + alog[-300:])
+            else:
+                aenv = dict(os.environ, ASAN_OPTIONS="detect_leaks=0", UBSAN_OPTIONS="print_stacktrace=1:halt_on_error=1")
+                for docs in cases[:2 * len(SHAPES) + 5]:
+                    inp = b"".join(pyb64.b64encode(d) + b"\n" for d in docs)
+                    st, so, se = run_limited([repo_bin("b64filter", "asan_only"), idc], stdin=inp, timeout=60, mem_mb=0, env=aenv)
+                    c.count(("asan", inp), nontrivial=True, bucket="asan-build")
+                    if st != 0 or b"AddressSanitizer" in se or b"runtime error" in se:
+                        c.violation("memory: sanitizer report / failure of the AddressSanitizer build of b64filter (status %s): %s" % (st, " ".join(se.decode("utf-8", "replace").split())[:300]),
+                                    {"op": "b64filter-asan", "stdin": inp.decode("latin1"), "documents": [d.decode("latin1") for d in docs], "status": st, "report": se.decode("utf-8", "replace")[-1500:]})
+                        break
     finally:
         shutil.rmtree(scratch, ignore_errors=True)
     c.cov["traces_validated_against_impl"] += len(runs)
